@@ -71,6 +71,188 @@ def regime_of(a, b, o):
     return "normal"
 
 
+# ---------------------------------------------------------------- integral numbers as parameters and as query points
+# The property quantifies over the numbers a, b, o, y; the constructor keeps integral parameters as numpy integers and numpy takes
+# the dtype of every intermediate from its operands, so the container a number arrives in is an input axis of its own (HOWTO (v)).
+INT_SUPPORTS = ((0, 4), (-3, 7), (2, 12))
+PARAM_LABELS = ("pyint", "int64", "int32", "int16", "int8", "uint8", "uint16", "uint32", "uint64")
+KEY_INT_PARAMS = "C06-integer-typed-parameters-intermediate-not-representable"
+
+
+def as_number(v, label):
+    """the integral number v as a Python int / Python float / numpy integer scalar of the named width"""
+    if label == "pyint":
+        return int(v)
+    if label == "float":
+        return float(v)
+    return getattr(np, label)(int(v))
+
+
+def holds(v, label):
+    if label == "float":
+        return True
+    info = np.iinfo("int64" if label == "pyint" else label)
+    return info.min <= int(v) <= info.max
+
+
+def _dt(label):
+    return None if label == "float" else np.dtype("int64" if label == "pyint" else label)
+
+
+def _rt(*dts):
+    """dtype numpy computes in when these operands meet (None = floating point, nothing to overflow)"""
+    if any(d is None for d in dts):
+        return None
+    r = np.result_type(*dts)
+    return r if r.kind in "iu" else None
+
+
+def _unrep(v, dt):
+    if dt is None:
+        return False
+    info = np.iinfo(dt)
+    return not (info.min <= v <= info.max)
+
+
+HAZ_RANGE = ("b-a", "6o", "a-6o", "b+6o")                    # the range [a-6o, b+6o] of the inversion / integration (series regime)
+HAZ_VARIANCE = ("b-a", "(b-a)^2", "4(b-a)^2", "o^2")          # mean and variance (normal regime; public attributes)
+HAZ_DENSITY = ("b-a", "2(b-a)", "y-a", "y-b", "b-y")          # cdf / pdf formulas
+
+
+def param_hazard(a, b, o, labels, ys=(), ylabel=None, relevant=None):
+    """Explicit predicate on the input (exact integer arithmetic, no call into the library): the intermediates of the class's
+    documented formulas - b-a, 2(b-a), (b-a)^2, 4(b-a)^2 (variance), o^2 (variance), 6o, a-6o, b+6o (range of the inversion / of the
+    integration), and for integer-typed query points y-a, y-b, b-y - that are NOT representable in the integer dtype numpy gives them
+    for parameters handed over as these integer types (`relevant`: only those the judged method uses in this regime).  None if every
+    one is representable (then integer-typed parameters are the same numbers as their float values and are judged without any
+    allowance)."""
+    la, lb, lo = labels
+    if not all(float(v).is_integer() for v in (a, b, o)):
+        return None
+    a, b, o = int(a), int(b), int(o)
+    ta, tb, to = _dt(la), _dt(lb), _dt(lo)
+    tab = _rt(ta, tb)
+    terms = [("b-a", b - a, tab), ("2(b-a)", 2 * (b - a), tab), ("(b-a)^2", (b - a) ** 2, tab), ("4(b-a)^2", 4 * (b - a) ** 2, tab),
+             ("o^2", o * o, to), ("6o", 6 * o, to), ("a-6o", a - 6 * o, _rt(ta, to)), ("b+6o", b + 6 * o, _rt(tb, to))]
+    if ylabel is not None and ylabel != "float":
+        ty = _dt(ylabel)
+        for y in ys:
+            y = int(y)
+            terms += [("y-a", y - a, _rt(ty, ta)), ("y-b", y - b, _rt(ty, tb)), ("b-y", b - y, _rt(ty, tb))]
+    bad = [f"{name} = {v} is not representable in {dt}" for name, v, dt in terms
+           if (relevant is None or name in relevant) and _unrep(v, dt)]
+    return "; ".join(sorted(set(bad))) if bad else None
+
+
+def hazards_for(regime, method):
+    """the intermediates `method` (cdf/pdf or ppf) depends on in this regime"""
+    if regime == "normal":
+        return HAZ_VARIANCE
+    if method == "ppf":
+        return HAZ_RANGE if regime == "nothing" else ("b-a",)
+    return HAZ_DENSITY
+
+
+def param_call(a, b, c, o, cv, labels):
+    """the constructor call, readable"""
+    def one(v, lab):
+        return repr(float(v)) if lab == "float" else (str(int(v)) if lab == "pyint" else f"np.{lab}({int(v)})")
+    return f"NoisyQuadraticDistribution({one(a, labels[0])}, {one(b, labels[1])}, {int(c)}, {one(o, labels[2])}, convex={bool(cv)})"
+
+
+def container_repr(label, S):
+    """the Python expression for the integral points S in the named container"""
+    S = [int(p) for p in S]
+    if label == "pyint_list":
+        return repr(S)
+    if label.endswith("_scalar"):
+        return str(S[0]) if label == "pyint_scalar" else f"np.{label[:-7]}({S[0]})"
+    if label == "int64_row":
+        return f"np.array([{S}], dtype=np.int64)"
+    if label == "int32_column":
+        return f"np.array({[[p] for p in S]}, dtype=np.int32)"
+    return f"np.array({S}, dtype=np.{label})"
+
+
+def param_label_sets(rng, a, b, o, k=2):
+    """ways to hand the integral a, b, o to the constructor: all Python ints, all np.int64, `k` further widths (the same dtype for
+    all three, every width incl. the unsigned ones that holds the three values), and mixed settings (some integer-typed, some float)"""
+    out = [("pyint", "pyint", "pyint"), ("int64", "int64", "int64")]
+    same = [lab for lab in PARAM_LABELS[2:] if all(holds(v, lab) for v in (a, b, o))]
+    rng.shuffle(same)
+    out += [(lab, lab, lab) for lab in same[:k]]
+    mixed = [("pyint", "pyint", "float"), ("float", "pyint", "pyint"), ("pyint", "float", "pyint"), ("float", "float", "pyint"),
+             ("int64", "float", "float"), ("float", "int32", "int64"), ("int32", "pyint", "int64"), ("uint8", "int64", "pyint")]
+    mixed = [m for m in mixed if all(holds(v, lab) for v, lab in zip((a, b, o), m))]
+    rng.shuffle(mixed)
+    return out + mixed[:k]
+
+
+def gen_int_dist(rng, switches, kind):
+    """integer-friendly member: a < b integers several units apart, so that the support contains integral points strictly inside;
+    every regime (o = 0, 0 < o < 1e-6 (b-a), series, normal), the noise level integral where integral values can reach the regime"""
+    if rng.random() < 0.6:
+        a, b = rng.choice(INT_SUPPORTS)
+    else:
+        a = rng.randint(-20, 20)
+        b = a + rng.randint(2, 40)
+    w = b - a
+    if kind == "o=0":
+        o = 0.0
+    elif kind == "0<o<1e-6w":
+        o = w * 10 ** rng.uniform(-9, -6.05)
+    elif kind == "series":
+        if rng.random() < 0.5:
+            s0 = rng.choice([s for s in switches if 1e-6 <= s <= 10.0])
+            s = s0 * (1 + rng.choice([-1, 0, 1]) * 10 ** rng.uniform(-8, -1))
+        else:
+            s = 10 ** rng.uniform(-6, 1)
+        o = min(max(s, 1e-6), 9.99) * w
+    elif kind == "series,o integral":
+        o = float(rng.randint(1, min(10 * w - 1, 60)))
+    elif kind == "normal":
+        o = w * 10 ** rng.uniform(1, 3.5)
+    else:  # "normal,o integral"
+        o = float(10 * w + rng.randint(0, 200))
+    c = rng.choice([1, 1, 2, 2, 3, 4, 5, 6, 7, 8, 9, 10])
+    inside = list(range(a + 1, b))
+    pts = set(rng.sample(inside, min(4, len(inside)))) | {(a + b) // 2, a, b, a - 1, b + 1}
+    ys = sorted(float(p) for p in pts) + [a + w * rng.random(), a + w * rng.random()]
+    return float(a), float(b), c, float(o), rng.random() < 0.5, "int:" + kind, ys
+
+
+PC_SUPPORTS = ((0, 1), (0, 4), (-3, 7), (2, 12), (10, 20), (0, 5), (-100, 100), (0, 1000), (1, 2))
+PC_KINDS = ("series", "series", "normal", "series", "o=0", "series", "noiseless", "a=b,o>0", "series", "point")
+
+
+def gen_int_params(rng, kind):
+    """integral a, b, o reaching the named regime (the regimes integral values can reach: the series regime needs o >= 1 and
+    b - a > o/10; 0 < o < 1e-6 (b-a) needs b - a > 1e6)"""
+    if rng.random() < 0.7:
+        a, b = rng.choice(PC_SUPPORTS)
+    else:
+        a = rng.randint(-50, 50)
+        b = a + rng.randint(1, 60)
+    w = b - a
+    if kind == "series":
+        o = rng.choice([1, 1, 2, 3, rng.randint(1, min(10 * w - 1, 90))])
+        o = min(o, 10 * w - 1)
+    elif kind == "normal":
+        o = 10 * w + rng.choice([0, 1, rng.randint(0, 50)])
+    elif kind == "o=0":
+        o = 0
+    elif kind == "noiseless":
+        b, o = a + 10 ** 6 * rng.choice([2, 5, 1000]) + rng.randint(0, 9), 1
+    elif kind == "a=b,o>0":
+        b, o = a, rng.randint(1, 9)
+    else:
+        b, o = a, 0
+    return float(a), float(b), rng.choice([1, 2, 2, 3, 4, 5, 6, 7, 8, 9, 10]), float(o), rng.random() < 0.5
+
+
+INT_KINDS = ("o=0", "series,o integral", "0<o<1e-6w", "o=0", "series", "normal,o integral", "o=0", "normal")
+
+
 def gen_dist(rng, switches):
     a = rng.choice([0.0, -1.0, 2.5, rng.uniform(-10, 10)])
     w = rng.choice([1.0, 1.0, 10 ** rng.uniform(-3, 3)])
@@ -146,6 +328,14 @@ def inp_of(a, b, c, o, cv, y=None):
     return d
 
 
+def _cont_note(extra):
+    if not extra:
+        return ""
+    bits = [f"y given as {extra['ys_container']}"] if extra.get("ys_container") else []
+    bits += [f"parameters given as {extra['constructor']}"] if extra.get("constructor") else []
+    return " [" + "; ".join(bits) + "]" if bits else ""
+
+
 class Conformance:
     """the property's clauses evaluated on the implementation against the oracle"""
 
@@ -162,8 +352,9 @@ class Conformance:
         self.n_dis = getattr(self, "n_dis", 0) + 1
         return self.n_dis <= 60
 
-    def cdf(self, a, b, c, o, cv, y, ic, cross=False, why="conformance"):
-        """True if the implementation's cdf value meets the property at this input"""
+    def cdf(self, a, b, c, o, cv, y, ic, cross=False, why="conformance", extra=None, fkey=None):
+        """True if the implementation's cdf value meets the property at this input; `extra` is added to the replay input (the container
+        the numbers were handed over in), `fkey` tags a violation as a recorded finding (explicit predicate evaluated by the caller)"""
         if not self.budget_left(why):
             return True
         reg = regime_of(a, b, o)
@@ -196,15 +387,14 @@ class Conformance:
                 return True
             tol = 1e-12 * tv
         if err > tol:
-            key = None
             self.rep.violate(
-                what=f"cdf(y) differs from P[Z+E<=y] by {err:.3g} > {tol:.3g} (regime {reg})",
-                input=inp_of(a, b, c, o, cv, y), expected=float(tv), observed=float(ic),
-                call="NoisyQuadraticDistribution.cdf", finding_key=key, found_by=why)
+                what=f"cdf(y) differs from P[Z+E<=y] by {err:.3g} > {tol:.3g} (regime {reg})" + _cont_note(extra),
+                input=dict(inp_of(a, b, c, o, cv, y), **(extra or {})), expected=float(tv), observed=float(ic),
+                call="NoisyQuadraticDistribution.cdf", finding_key=fkey, found_by=why)
             return False
         return True
 
-    def pdf(self, a, b, c, o, cv, y, ip, cross=False, why="conformance"):
+    def pdf(self, a, b, c, o, cv, y, ip, cross=False, why="conformance", extra=None, fkey=None):
         if not self.budget_left(why):
             return True
         reg = regime_of(a, b, o)
@@ -236,8 +426,8 @@ class Conformance:
             scale_name = "(b-a)*pdf"
         self.rep.count(f"oracle_pdf[{why}]")
         if not (ip >= 0):
-            self.rep.violate(what="pdf(y) is negative or nan", input=inp_of(a, b, c, o, cv, y), observed=float(ip),
-                             call="NoisyQuadraticDistribution.pdf")
+            self.rep.violate(what="pdf(y) is negative or nan" + _cont_note(extra), input=dict(inp_of(a, b, c, o, cv, y), **(extra or {})),
+                             observed=float(ip), call="NoisyQuadraticDistribution.pdf", finding_key=fkey, found_by=why)
             return False
         if a == b and err <= tol and tv > 0 and err > 1e-12 * tv:
             # "1e-12 relative" for the exact normal law: exp(-x*x/2) inherits the rounding of its argument,
@@ -256,11 +446,134 @@ class Conformance:
             tol = 1e-12 * tv
         if err > tol:
             self.rep.violate(
-                what=f"{scale_name} differs from the convolution density by {err:.3g} > {tol:.3g} (regime {reg})",
-                input=inp_of(a, b, c, o, cv, y), expected=float(tv), observed=float(ip),
-                call="NoisyQuadraticDistribution.pdf", found_by=why)
+                what=f"{scale_name} differs from the convolution density by {err:.3g} > {tol:.3g} (regime {reg})" + _cont_note(extra),
+                input=dict(inp_of(a, b, c, o, cv, y), **(extra or {})), expected=float(tv), observed=float(ip),
+                call="NoisyQuadraticDistribution.pdf", finding_key=fkey, found_by=why)
             return False
         return True
+
+
+def int_member_block(rep, conf, rng, NQ, d, a, b, c, o, cv, base, ys, forced=None):
+    """An integer-friendly member (integral a < b, see gen_int_dist): its integral query points - strictly inside the support, the
+    two ends, one unit outside - handed over as a list of Python ints, as integer ndarrays of every width that holds them (1-D, a
+    row, a column), as Python int and numpy integer scalars; and, where o is integral too, the three parameters handed over as
+    Python ints / numpy integer scalars / mixed with floats.  The property is about the numbers.  Verdicts: for o = 0 (closed-form
+    density and cdf of the quadratic law in the oracle; the two support ends are a convention of the pdf and are skipped there)
+    every value goes to the oracle; for o > 0 a first pass compares with the float64 evaluation of the same numbers (which the main
+    loop ties to the model and the conformance stage to the oracle) and the oracle decides, at the property's tolerances, wherever
+    they differ.  Returns True if a clause failed."""
+    ints = sorted({int(y) for y in ys if np.isfinite(y) and float(y).is_integer()})
+    if not ints:
+        return False
+    with np.errstate(all="ignore"):
+        ref = {p: (float(d.cdf(float(p))), float(d.pdf(float(p)))) for p in ints}
+    direct = (o == 0 and b > a)
+    forced = forced or {}
+
+    def judge(p, vc, vp, extra, fkey=None):
+        rep.case(("container", extra.get("ys_container"), extra.get("param_container"), base["a"], base["b"], c, base["o"], cv, p), nontrivial=b > a)
+        sus_c = direct or not abs(vc - ref[p][0]) <= 1e-7
+        sus_p = direct or not abs(vp - ref[p][1]) <= 1e-6 * max(1.0, abs(ref[p][1]))
+        if not (sus_c or sus_p):
+            return True
+        if fkey or not direct:
+            # the oracle is consulted for at most 24 deviating values per run (3 where the recorded dtype finding applies)
+            cnt = "n_cont_keyed" if fkey else "n_cont"
+            if getattr(conf, cnt, 0) >= (3 if fkey else 24):
+                return True
+            setattr(conf, cnt, getattr(conf, cnt, 0) + 1)
+        good = True
+        if sus_c:
+            good = conf.cdf(a, b, c, o, cv, float(p), float(vc), why="ys_container", extra=extra, fkey=fkey) and good
+        if sus_p:
+            good = conf.pdf(a, b, c, o, cv, float(p), float(vp), why="ys_container", extra=extra, fkey=fkey) and good
+        return good
+
+    def eval_on(dd, obj, n, label, extra, fkey=None):
+        """cdf and pdf of `dd` on the container `obj` holding n points; None after reporting a raised exception / a wrong shape"""
+        try:
+            with np.errstate(all="ignore"):
+                vc, vp = dd.cdf(obj), dd.pdf(obj)
+        except Exception as e:  # noqa: BLE001
+            rep.violate(what=f"cdf/pdf raised for points given as {label} (the same numbers as float64 are accepted)" + _cont_note(extra), error=repr(e),
+                        input=dict(base, **extra), call="NoisyQuadraticDistribution.cdf", finding_key=fkey, found_by="ys_container")
+            return None
+        want = np.shape(obj)
+        if np.shape(vc) != want or np.shape(vp) != want:
+            rep.violate(what=f"cdf/pdf: points given as {label} of shape {want} gave shapes {np.shape(vc)}, {np.shape(vp)}" + _cont_note(extra),
+                        input=dict(base, **extra), call="NoisyQuadraticDistribution.cdf", finding_key=fkey, found_by="ys_container")
+            return None
+        return np.ravel(np.asarray(vc, dtype=float)), np.ravel(np.asarray(vp, dtype=float))
+
+    sets = [S for S in ([p for p in ints if a < p < b], [p for p in ints if not (a < p < b)]) if S]
+    # ---- the query points in other containers
+    if not forced.get("constructor"):
+        for S in sets:
+            conts = [("pyint_list", [int(p) for p in S])]
+            fit = [dt for dt in C.INT_DTYPES if np.iinfo(dt).min <= min(S) and max(S) <= np.iinfo(dt).max]
+            conts += [(dt, np.array(S, dtype=dt)) for dt in fit]
+            conts += [("int64_row", np.array(S, dtype=np.int64).reshape(1, -1)), ("int32_column", np.array(S, dtype=np.int32).reshape(-1, 1))]
+            scal = ["pyint"] + rng.sample(fit, min(2, len(fit)))
+            if forced.get("ys_container"):
+                conts = [lc for lc in conts if lc[0] == forced["ys_container"]]
+                scal = [lab for lab in ["pyint"] + fit if lab + "_scalar" == forced["ys_container"]]
+            for label, obj in conts:
+                rep.count("ys_container=" + label)
+                extra = dict(ys_container=label, ys=[C.fhex(p) for p in S],
+                             python=f"{param_call(a, b, c, o, cv, ('float',) * 3)}.cdf/.pdf({container_repr(label, S)})")
+                v = eval_on(d, obj, len(S), label, extra)
+                if v is None or not all([judge(p, v[0][j], v[1][j], extra) for j, p in enumerate(S)]):
+                    return True
+            for lab in scal:
+                rep.count(f"ys_container={lab}_scalar")
+                for p in S:
+                    extra = dict(ys_container=lab + "_scalar",
+                                 python=f"{param_call(a, b, c, o, cv, ('float',) * 3)}.cdf/.pdf({container_repr(lab + '_scalar', [p])})")
+                    v = eval_on(d, as_number(p, lab), 1, lab + "_scalar", extra)
+                    if v is None or not judge(p, v[0][0], v[1][0], extra):
+                        return True
+    # ---- the parameters in other containers (integral a, b and o)
+    if not float(o).is_integer() or forced.get("ys_container") and not forced.get("constructor"):
+        return False
+    if forced.get("param_container"):
+        label_sets = [tuple(forced["param_container"].split("/"))]
+    else:
+        label_sets = param_label_sets(rng, a, b, o)
+    allp = [p for S in sets for p in S]
+    for labels in label_sets:
+        plabel = "/".join(labels)
+        rep.count("param_container=" + ("all " + labels[0] if len(set(labels)) == 1 else "mixed"))
+        hz = param_hazard(a, b, o, labels, relevant=hazards_for(regime_of(a, b, o), "cdf"))
+        if hz:
+            rep.count("param_container:an_intermediate_is_not_representable_in_the_parameters_dtype")
+        fkey = KEY_INT_PARAMS if hz else None
+        extra = dict(param_container=plabel, constructor=param_call(a, b, c, o, cv, labels), **({"dtype_hazard": hz} if hz else {}),
+                     python=f"{param_call(a, b, c, o, cv, labels)}.cdf/.pdf(np.array({[float(p) for p in allp]}))")
+        try:
+            d2 = NQ(as_number(a, labels[0]), as_number(b, labels[1]), c, as_number(o, labels[2]), cv)
+        except Exception as e:  # noqa: BLE001
+            rep.violate(what="the constructor raised for integral parameters" + _cont_note(extra), error=repr(e), input=dict(base, **extra),
+                        call="NoisyQuadraticDistribution", finding_key=fkey, found_by="param_container")
+            return True
+        v = eval_on(d2, np.array(allp, dtype=float), len(allp), "float64", extra, fkey)
+        if v is None or not all([judge(p, v[0][j], v[1][j], extra, fkey) for j, p in enumerate(allp)]):
+            if not fkey:
+                return True
+            continue
+        # integer-typed parameters and integer-typed points together
+        for S in sets:
+            fit = [dt for dt in C.INT_DTYPES if np.iinfo(dt).min <= min(S) and max(S) <= np.iinfo(dt).max]
+            ylab = forced.get("ys_container") or rng.choice(fit)
+            hz2 = param_hazard(a, b, o, labels, ys=S, ylabel=ylab, relevant=hazards_for(regime_of(a, b, o), "cdf"))
+            fk2 = KEY_INT_PARAMS if hz2 else None
+            ex2 = dict(extra, ys_container=ylab, ys=[C.fhex(p) for p in S], **({"dtype_hazard": hz2} if hz2 else {}),
+                       python=f"{param_call(a, b, c, o, cv, labels)}.cdf/.pdf({container_repr(ylab, S)})")
+            rep.count("param_container_with_integer_points")
+            v = eval_on(d2, np.array(S, dtype=ylab), len(S), ylab, ex2, fk2)
+            if v is None or not all([judge(p, v[0][j], v[1][j], ex2, fk2) for j, p in enumerate(S)]):
+                if not fk2:
+                    return True
+    return False
 
 
 IMAGE_WIDTHS = (1e-2, 1e-4, 1e-7, 1e3)
@@ -342,13 +655,17 @@ def run(seed, tier, replay=None):
     n_ys = 10
     n_spec = 170 if not thorough else 2500
     n_mono = 70 if not thorough else 600
+    n_int = 32 if not thorough else 320
 
     dists = []
+    forced = None
     if replay is not None:
         inp = (replay.get("violation") or replay).get("input") or {}
         try:
             a, b, o = C.unhex(inp["a"]), C.unhex(inp["b"]), C.unhex(inp["o"])
-            dists.append((a, b, int(inp["c"]), o, bool(inp["convex"]), "replay",
+            as_int = bool(inp.get("python"))      # found by int_member_block: replay the named container(s) at the recorded point
+            forced = dict(ys_container=inp.get("ys_container"), constructor=inp.get("constructor"), param_container=inp.get("param_container")) if as_int else None
+            dists.append((a, b, int(inp["c"]), o, bool(inp["convex"]), "int:replay" if as_int else "replay",
                           [C.unhex(inp["y"])] if "y" in inp else None))
             n_dists = n_mono = 0
             n_spec = 10
@@ -378,6 +695,16 @@ def run(seed, tier, replay=None):
                         dists.append((a, a + w, c, s * w, cv, "entry%g@%g" % (k, ms_e), ys))
                         entry_dists.append(len(dists) - 1)
                 hi_s = ms_e if ms_e > 0 else hi_s
+    # integer-friendly members (integral a < b several units apart, integral query points strictly inside the support) in every
+    # regime; generated from a stream of their own and kept out of the pools of stages 2 and 3 (they are judged in int_member_block
+    # and below), so that the strata above are the same as before for a given seed
+    first_int = len(dists)
+    rng_i = C.rng_for("C06.integer-members", seed)
+    if replay is None:
+        for i in range(n_int):
+            dists.append(gen_int_dist(rng_i, switches, INT_KINDS[i % len(INT_KINDS)]))
+    elif dists and dists[0][5] == "int:replay":
+        first_int = 0
 
     # ------------------------------------------------------------------ 1. correspondence
     reqs, meta = [], []
@@ -406,7 +733,7 @@ def run(seed, tier, replay=None):
 
     stats = dict(cdf_cases=0, pdf_cases=0, ill_cdf=0, ill_pdf=0, tight_cdf=0, tight_pdf=0, worst_cdf_excess=0.0, worst_pdf_excess=0.0,
                  max_allowance_used_cdf=0.0)
-    spec_pool = []
+    spec_pool, int_pool = [], []
     for di, (a, b, c, o, cv, tag, ys) in enumerate(dists):
         rc, rp = replies[2 * di], replies[2 * di + 1]
         base = inp_of(a, b, c, o, cv)
@@ -440,6 +767,8 @@ def run(seed, tier, replay=None):
         # integer ndarrays / Python ints.  The property is about the real number y; numpy takes the precision of the whole
         # computation from the dtype of y.  First pass: against the float64 evaluation of the same numbers; the oracle
         # decides (property tolerances) only where they differ, so nothing is reported unless the property fails there.
+        if tag.startswith("int:"):
+            int_member_block(rep, conf, rng_i, NQ, d, a, b, c, o, cv, base, ys, forced)
         if replay is None or (replay.get("violation") or replay).get("found_by") == "ys_container":
             pts32 = [float(np.float32(y)) for y in ys if np.isfinite(y) and np.isfinite(np.float32(y))][:6]
             ptsi = sorted({float(math.floor(a)), float(math.ceil(b)), float(round((a + b) / 2))}) if abs(a) + abs(b) < 1e15 else []
@@ -478,7 +807,10 @@ def run(seed, tier, replay=None):
             ic, ip = float(ics[j]), float(ips[j])
             mc, sc = C.unhex(rc[2 * j]), C.unhex(rc[2 * j + 1])
             mp_, sp = C.unhex(rp[2 * j]), C.unhex(rp[2 * j + 1])
-            spec_pool.append((di, j))
+            if di < first_int:
+                spec_pool.append((di, j))
+            elif j % 3 == 0 and abs(y) != INF:
+                int_pool.append((di, j))
             # ---- range / limits (property clauses, directly on the implementation)
             if not (0.0 <= ic <= 1.0):
                 rep.violate(what="cdf(y) outside [0, 1]", input=inp_of(a, b, c, o, cv, y), observed=ic,
@@ -573,6 +905,7 @@ def run(seed, tier, replay=None):
         js = list(range(len(dists[di][6])))
         rng.shuffle(js)
         picked += [(di, j) for j in js[:2]]
+    picked += int_pool          # the float64 evaluation of the integer-friendly members (every third point)
     seen = set()
     n_cross = 0
     for idx, (di, j) in enumerate(picked):
@@ -592,7 +925,7 @@ def run(seed, tier, replay=None):
         rep.case(("spec", C.fhex(a), C.fhex(b), c, C.fhex(o), cv, y))
 
     # ------------------------------------------------------------------ 3. monotonicity defect (implementation only)
-    mono_d = [dd for dd in dists if dd[1] > dd[0] or dd[3] > 0]
+    mono_d = [dd for dd in dists[:first_int] if dd[1] > dd[0] or dd[3] > 0]
     rng.shuffle(mono_d)
     for (a, b, c, o, cv, tag, _ys) in mono_d[:n_mono]:
         lo, hi = a - 9 * o, b + 9 * o
